@@ -2,7 +2,7 @@
 
   fl sites                      -> `idx|file|line|fn|ok;…`   (the generated table; ok = not unguarded)
   fl op <name> <hex16>…         -> `(float <hex16>)` | `err` | `stuck`
-     lit a | neg a | add a b | sub a b | mul a b | div a b | negneg a | pairneg a b
+     lit a | json a | neg a | add a b | sub a b | mul a b | div a b | negneg a | pairneg a b
 -/
 import XrayModel.FloatSites
 import Generated.FloatSites
@@ -45,6 +45,7 @@ def flEngine (f : String) (args : List String) : String :=
   let checked := flSite (fun s => s.file == "xvalue.rs" && s.fn == "float")
   let lit := flSite (fun s => s.file == "runtime_scope.rs")
   let negS := flSite (fun s => s.fn == "add_float_neg")
+  let jsonS := flSite (fun s => s.file == "builtin/json.rs")
   let ev (e : FExpr flDom) : String := flShow (eval flDom T e)
   match f, args with
   | "sites", [] =>
@@ -55,6 +56,7 @@ def flEngine (f : String) (args : List String) : String :=
     | some xs =>
       match name, xs with
       | "lit", [a] => ev (.ext lit a)
+      | "json", [a] => ev (.json jsonS a)
       | "neg", [a] => ev (.un negS .neg (.ext lit a))
       | "negneg", [a] => ev (.un negS .neg (.un negS .neg (.ext lit a)))
       | "add", [a, b] => ev (.bin checked (.fn2 flAdd) (.ext lit a) (.ext lit b))
